@@ -41,6 +41,8 @@ SUBSCRIPT_EXEMPT = [
      "group 2 of marko's FencedCode.pattern is `{3,}`: at least three characters"),
     ("<code-block renderers>", "0", lambda org: bool(org) and all(_is_children_of_param(o) for o in org),
      "marko's FencedCode / CodeBlock (and CustomFencedCode.__init__) always store exactly one RawText child"),
+    ("<table renderer>", "0", lambda org: bool(org) and all(_is_children_of_param(o) for o in org),
+     "marko's gfm Table.match only accepts a header row followed by a delimiter row, and stores the header as the first child"),
 ]
 _CODE_RENDERERS = tuple(f"flowmark.formats.flowmark_markdown:MarkdownNormalizer.{m}" for m in ("render_fenced_code", "render_code_block", "render_custom_fenced_code"))
 
@@ -59,6 +61,8 @@ def _referenced_as_value(prog, fi: FuncInfo) -> bool:
 def _exempt_applies(prog, q: str, fi: FuncInfo) -> bool:
     """`<code-block renderers>`: the three code-block render methods and the private code they share (helpers whose every
     caller is one of them) - whatever that helper is called."""
+    if q == "<table renderer>":
+        return fi.cls is not None and fi.name == "render_table"  # (marko's dispatch name for gfm Table elements)
     if q != "<code-block renderers>":
         return q == fi.qual
     if fi.qual in _CODE_RENDERERS:
@@ -88,9 +92,10 @@ def format_scope(ctx: Ctx) -> dict[str, FuncInfo]:
     roots = [ctx.repo.func(q) for q in FORMAT_ROOTS]
     sc = reachable_functions(ctx.prog, roots)
     # marko calls these class methods of the custom elements during parsing
-    for q, f in ctx.repo.functions.items():
-        if f.cls is not None and f.cls.name in ("CustomFencedCode", "CustomStrikethrough", "CustomHTMLBlock", "CustomParser"):
-            sc[q] = f
+    from .common import framework_hook_functions
+
+    for q, f in framework_hook_functions(ctx.repo).items():
+        sc[q] = f
     return sc
 
 
@@ -453,19 +458,29 @@ def check_subscripts(ctx: Ctx) -> None:
                     subs.append(n)
                 elif isinstance(s, ast.UnaryOp) and isinstance(s.op, ast.USub) and isinstance(s.operand, ast.Constant):
                     subs.append(n)
+        # `first, *rest = xs` needs at least one element just as xs[0] does
+        unpacks: dict[int, ast.Assign] = {}
+        for n in walk_no_nested(fi.node):
+            if isinstance(n, ast.Assign) and len(n.targets) == 1 and isinstance(n.targets[0], (ast.Tuple, ast.List)) \
+                    and any(isinstance(e, ast.Starred) for e in n.targets[0].elts) and len(n.targets[0].elts) >= 2 \
+                    and isinstance(n.value, (ast.Name, ast.Attribute)):
+                unpacks[id(n.value)] = n
+                subs.append(n.value)
         if not subs:
             continue
         flow = prog.flow(fi)
         for sub in subs:
-            base = sub.value
+            is_unpack = id(sub) in unpacks
+            base = sub if is_unpack else sub.value
             key = _path_key(base)
-            txt = norm(sub)
+            txt = norm(unpacks[id(sub)])[:60] if is_unpack else norm(sub)
             n_sub += 1
             okey = f"{fi.qual} :: {txt}"
             node0 = flow.node_of(sub)
             exempt = None
             for q, idx_txt, pred, reason in SUBSCRIPT_EXEMPT:
-                if _exempt_applies(prog, q, fi) and norm(sub.slice) == idx_txt and node0 is not None and pred(origins(prog, fi, base, node0)):
+                if (q == "<table renderer>" or not is_unpack) and _exempt_applies(prog, q, fi) and (is_unpack or norm(sub.slice) == idx_txt) and node0 is not None \
+                        and pred(origins(prog, fi, base, node0)):
                     exempt = reason
             if exempt is not None:
                 ctx.ob("R-TERM-index", okey, True, "exempt: " + exempt, where(fi, sub))
